@@ -124,9 +124,9 @@ pub fn plan_for(prop: &str, tier: &str) -> Option<Plan> {
             &["refused_packet_too_large", "outbound_exactly_at_max", "closed_because_ack_too_large", "inbound_just_over_rx_buffer"],
         ),
         "C15" => (
-            vec![enumerated(Scenario::FragTwin(0), 32_768), scn(Scenario::FragTwin(1), k(30_000)), enumerated(Scenario::FragTwin(2), 32_768), enumerated(Scenario::FragTwin(3), 3_072), enumerated(Scenario::FragTwin(4), 192)],
+            vec![enumerated(Scenario::FragTwin(0), 32_768), scn(Scenario::FragTwin(1), k(30_000)), enumerated(Scenario::FragTwin(2), 32_768), enumerated(Scenario::FragTwin(3), 3_072), enumerated(Scenario::FragTwin(4), 192), enumerated(Scenario::FragTwin(5), 112)],
             "fault_enumeration",
-            "FragTwin(0): all 2^(n-1) chunkings of short inbound streams (enumerated); FragTwin(1): random chunkings and partial-write patterns of long scripts; FragTwin(2): the same eight streams cut at every combination of the first 8 split points with the pieces arriving 300 ms apart while a 1 s keep-alive runs (the library's own deadline fires between fragments), comparing deliveries and non-PINGREQ packets; FragTwin(3): six streams that start with a packet whose remaining length needs 2 or 3 bytes (127/128/129, 200, 300, 16383, 16384), cut at every combination of the first 8 split points, pieces 300 ms apart, the read between them interrupted by the 1 s keep-alive deadline or by a 100 ms application timeout; FragTwin(4): the transport dies right after the first write call of a PUBLISH (QoS 1, QoS 2), SUBSCRIBE or PUBREL, which accepted either the whole packet or only its first k bytes (k = 1..48), and the session is resumed: the resumed connection must carry the same bytes; delivered messages, operation results and outbound bytes must equal the unfragmented run",
+            "FragTwin(0): all 2^(n-1) chunkings of short inbound streams (enumerated); FragTwin(1): random chunkings and partial-write patterns of long scripts; FragTwin(2): the same eight streams cut at every combination of the first 8 split points with the pieces arriving 300 ms apart while a 1 s keep-alive runs (the library's own deadline fires between fragments), comparing deliveries and non-PINGREQ packets; FragTwin(3): six streams that start with a packet whose remaining length needs 2 or 3 bytes (127/128/129, 200, 300, 16383, 16384), cut at every combination of the first 8 split points, pieces 300 ms apart, the read between them interrupted by the 1 s keep-alive deadline or by a 100 ms application timeout; FragTwin(4): the transport dies right after the first write call of a PUBLISH (QoS 1, QoS 2), SUBSCRIBE or PUBREL, which accepted either the whole packet or only its first k bytes (k = 1..48), and the session is resumed: the resumed connection must carry the same bytes; FragTwin(5): 14 streams x first piece of 1..8 bytes, the second piece 300 ms later, the application's poll times out after 100 ms, the connection is dropped and the session reconnects (the stream then arrives in one piece): connect() and the fatal results must be those of the run whose first stream arrived in one piece; delivered messages, operation results and outbound bytes must equal the unfragmented run",
             &["twin_fragmented"],
         ),
         "C16" => (
@@ -182,6 +182,7 @@ pub fn plan_for(prop: &str, tier: &str) -> Option<Plan> {
             Scenario::FragTwin(0) | Scenario::FragTwin(2) => Some(32_768),
             Scenario::FragTwin(3) => Some(3_072),
             Scenario::FragTwin(4) => Some(192),
+            Scenario::FragTwin(5) => Some(112),
             Scenario::Table => Some(96 * crate::scen2::table_cases()),
             _ => None,
         };
